@@ -1,5 +1,7 @@
 /-
-Driver mode for C08: `c08clean` — the model's clean value of every produced, non-virtual node of a description.
+Driver modes for C08: `c08clean` — the model's clean value of every produced, non-virtual node of a description;
+`c08xclean` — the same for the EXTENDED client (Model/BuildSystemClientX.lean: discovered dependencies, own failure),
+plus how every command's execution ends and which keys it reports (see below).
 Input (one case = several lines, terminated by `eval`):
   node <i> <kind: 0 file | 1 virtual | 2 dir | 3 link> <state: 0 missing, x+1 present with content x>
   cmd <c> <tool: 0 shell | 1 phony | 2 mkdir | 3 symlink> <salt> <inputs i,j,..|.> <outputs i,j,..|.>
@@ -8,6 +10,7 @@ Output: one line per case: `<i>=<content>|dir|link:<salt>|failed|missing|?<raw>`
 -/
 import LLBuild.Drv.Common
 import LLBuild.Model.BuildSystemClient
+import LLBuild.Model.BuildSystemClientX
 
 namespace LLBuild.Drv.C08
 open LLBuild LLBuild.Drv LLBuild.BuildSystemClient
@@ -84,6 +87,143 @@ partial def loop (a : Acc) : Mode := fun h out => do
   else
     loop (feed a line) h out
 
-def modes : List (String × Mode) := [("c08clean", loop {})]
+/-! ### `c08xclean`: the extended client
+
+Input (one case = several lines, terminated by `evalx`): `node` and `cmd` lines as for `c08clean`, and
+  path <i> <hex>                         the (absolute) path of node i — discovered paths are matched against these; a
+                                         discovered path that is no node of the case gets a fresh index (a missing file)
+  xfail <c> <0|1>                        the process of command c ends with a non-zero status in this state
+  xdeps <c> <style 0..3> <f>;<f>;..      the dependency files of c as the loop sees them: `x` (cannot be opened) or
+                                         `<ok 0|1>:<i,j,..|.>` (keys by node index, parsed without error?)
+  xdepsb <c> <style> <hexwd> <f>,<f>,..  the dependency files of c by CONTENTS (hex, `x` = cannot be opened), style =
+                                         makefile | dependency-info | makefile-ignoring-subsequent-outputs | unused;
+                                         goes through the parser models of C11 (`absDepsFile`)
+  evalx
+Output, one line per case: for each command `C<c>=<ok|failed|depsfailed|skipped|nofuel>:<keys>` (how its execution
+ends in a clean build — `failed` = exit status, `depsfailed` = dependency files, `skipped` = a missing / failed input —
+and the discovered keys it reports, by node index or, when the node has a `path`, by hex path; `.` = none), then
+`<i>=<content>|dir|link:<salt>|failed|?<raw>` for each produced non-virtual node as for `c08clean`. -/
+
+structure AccX where
+  a : Acc := {}
+  paths : List (Nat × Bytes) := []
+  fails : List (Nat × Bool) := []
+  deps : List (Nat × Nat × List DepsFile) := []
+  depsb : List (Nat × ShellDeps.DepsStyle × Bytes × List ShellDeps.DepsFile) := []
+  unused : List Nat := []        -- commands with a `deps:` attribute but no `deps-style`
+
+def parseAbsFile (s : String) : Option DepsFile :=
+  if s == "x" then some .unreadable else
+  match s.splitOn ":" with
+  | [ok, ks] => (natList ks).map (fun l => DepsFile.parsed l (ok == "1"))
+  | _ => none
+
+def styleOfX : String → Option ShellDeps.DepsStyle
+  | "makefile" => some .makefile
+  | "dependency-info" => some .dependencyInfo
+  | "makefile-ignoring-subsequent-outputs" => some .makefileIgnoringSubsequentOutputs
+  | "unused" => some .unused
+  | _ => none
+
+def fileOfX (s : String) : Option ShellDeps.DepsFile :=
+  if s == "x" then some none else (Hex.decode s).map some
+
+/-- all paths the byte-level dependency files of the case can yield, in order of first appearance -/
+def listedPaths (x : AccX) : List Bytes :=
+  (x.depsb.flatMap fun (_, st, wd, fs) => fs.flatMap fun f =>
+    match ShellDeps.fileKeys st wd f with
+    | .ok ks => ks
+    | .error _ => []).eraseDups
+
+def buildX (x : AccX) : DescX × Engine.Env × List (Nat × Bytes) :=
+  let (d, env) := build x.a
+  let n := d.virt.length
+  let fresh := (listedPaths x).filter (fun p => !(x.paths.any (fun q => q.2 == p)))
+  let paths := x.paths ++ (List.range fresh.length).zipWith (fun j p => (n + j, p)) fresh
+  let idx : Bytes → Nat := fun p => match paths.find? (fun q => q.2 == p) with
+    | some q => q.1
+    | none => 0
+  let ext := (List.range d.cmds.length).map fun c =>
+    let fail := match x.fails.find? (fun p => p.1 == c) with | some p => p.2 | none => false
+    match x.deps.find? (fun p => p.1 == c), x.depsb.find? (fun p => p.1 == c) with
+    | some (_, st, fs), _ =>
+      ({ depsPaths := List.range fs.length, depsStyle := st, exitsNonZero := fun _ => fail, depsElse := fs } : CmdX)
+    | none, some (_, st, wd, fs) =>
+      { depsPaths := List.range fs.length, depsStyle := styleCode st, exitsNonZero := fun _ => fail,
+        depsElse := fs.map (absDepsFile st wd idx) }
+    | none, none => { exitsNonZero := fun _ => fail }
+  ({ base := d, ext := ext }, env, paths)
+
+def renderX (x : AccX) : String :=
+  if x.a.bad then "bad-op" else
+  let (dx, env, paths) := buildX x
+  let d := dx.base
+  let fuel := 2 * d.cmds.length + 4
+  let showKey := fun (i : Nat) => match paths.find? (fun q => q.1 == i) with
+    | some q => Hex.encode q.2
+    | none => toString i
+  let cmds := (List.range d.cmds.length).map fun c =>
+    let cm := d.cmd c
+    if cm.tool != .shell then
+      match cleanEvalX dx env fuel (cmdKey c) with
+      | none => s!"C{c}=nofuel:."
+      | some v => if v == vFailedCmd then s!"C{c}=skipped:." else s!"C{c}=ok:."
+    else
+      match cleanRunX dx env fuel c with
+      | none => s!"C{c}=nofuel:."
+      | some r =>
+        let st := match r.status with
+          | .skipped => "skipped" | .exitedNonZero => "failed" | .depsFailed => "depsfailed" | .succeeded => "ok"
+        let ks := if r.keys.isEmpty then "." else ",".intercalate (r.keys.map showKey)
+        s!"C{c}={st}:{ks}"
+  let n := d.virt.length
+  let items := (List.range n).filterMap fun i =>
+    match d.producers i with
+    | [] => none
+    | c :: _ =>
+      if d.isVirtual i then none else
+      let cmd := d.cmd c
+      match cleanEvalX dx env fuel (nodeKey i) with
+      | none => some s!"{i}=nofuel"
+      | some v =>
+        if v == vFailedInput then some s!"{i}=failed"
+        else if isExisting v then
+          match cmd.tool with
+          | .mkdir => some s!"{i}=dir"
+          | .symlink => some s!"{i}=link:{cmd.salt}"
+          | _ => some s!"{i}={v / 8}"
+        else some s!"{i}=?{v}"
+  " ".intercalate (cmds ++ items)
+
+def feedX (x : AccX) (line : String) : AccX :=
+  match fields line with
+  | ["path", i, p] =>
+    match i.toNat?, Hex.decode p with
+    | some i, some p => { x with paths := x.paths ++ [(i, p)] }
+    | _, _ => { x with a := { x.a with bad := true } }
+  | ["xfail", c, b] =>
+    match c.toNat? with
+    | some c => { x with fails := (c, b == "1") :: x.fails }
+    | none => { x with a := { x.a with bad := true } }
+  | ["xdeps", c, st, fs] =>
+    match c.toNat?, st.toNat?, (fs.splitOn ";").mapM parseAbsFile with
+    | some c, some st, some fs => { x with deps := (c, st, fs) :: x.deps }
+    | _, _, _ => { x with a := { x.a with bad := true } }
+  | ["xdepsb", c, st, wd, fs] =>
+    match c.toNat?, styleOfX st, Hex.decode wd, (fs.splitOn ",").mapM fileOfX with
+    | some c, some st, some wd, some fs => { x with depsb := (c, st, wd, fs) :: x.depsb }
+    | _, _, _, _ => { x with a := { x.a with bad := true } }
+  | _ => { x with a := feed x.a line }
+
+partial def loopX (x : AccX) : Mode := fun h out => do
+  let line ← h.getLine
+  if line.isEmpty then return ()
+  if line.trimAscii.toString == "evalx" then
+    out.putStrLn (renderX x)
+    loopX {} h out
+  else
+    loopX (feedX x line) h out
+
+def modes : List (String × Mode) := [("c08clean", loop {}), ("c08xclean", loopX {})]
 
 end LLBuild.Drv.C08
